@@ -23,7 +23,7 @@ RULE = ('seeded histories interleaving list-style (add/update/remove/discard/pop
         'and are read out every 50 steps plus sampled indices/slices; distinct = distinct (list contents, '
         'dead-interval table) states reached with at least one dead interval')
 ASSUMPTIONS = [
-    'items are small ints (sort keys: natural, negated, modulo 3 - Python sorts are stable)',
+    'items are small ints, in a quarter of the short histories joined by equal-but-distinct 1.0, True, 2.0, 0.0 (sort keys: natural, negated, modulo 3 - Python sorts are stable)',
     'only index/slice arguments valid for a list of the same length; slices with positive step',
     'operator forms (| & - ^ and their in-place/reflected variants) only with set-like operands, method '
     'forms with any listed operand type; set operands contribute their own iteration order',
@@ -415,6 +415,8 @@ class Check(object):
             return self.gen_long(r, ctx)
         npool = r.choice([4, 6, 10, 16, 30])
         pool = list(range(npool))
+        if r.random() < 0.25:
+            pool += [1.0, True, 2.0, 0.0]       # equal to items of the pool, but other objects
         n = r.randint(1, r.choice([8, 30, 120]))
         ops = []
         for _ in range(n):
